@@ -130,6 +130,16 @@ extern int _mpt_convert_uint(void *val, size_t vlen, const char *src, int base)
 	if (errno == ERANGE) {
 		return MPT_ERROR(BadValue);
 	}
+	/* negative input is negated modulo 2^64 by strtoumax() */
+	if (tmp) {
+		const char *pos = src;
+		while (isspace((unsigned char) *pos)) {
+			++pos;
+		}
+		if (*pos == '-') {
+			return MPT_ERROR(BadValue);
+		}
+	}
 	switch (vlen) {
 	  case sizeof(int8_t) :
 		if (tmp > UINT8_MAX) {
